@@ -456,6 +456,7 @@ def check_C04(ctx):
     allout = concat(ctx, outs, "c04-lines.txt")
     s = hv(ctx, "replay-sim", prop="C04", **{"in": allout})
     ctx.traces += s.get("cases", 0)
+    trace_core(ctx, "C04", 10 if ctx.quick else 200)      # larger recorded ontologies: arguments validated by TLC, formulas on observed arguments
     ctx.extra["extra_path_queries"] = s.get("counters", {}).get("extra_path_queries", 0)
     ctx.extra["extra_set_queries"] = s.get("counters", {}).get("extra_set_queries", 0)
     ctx.assumptions += ["ln/exp and f32 rounding are outside TLA+: formulas are evaluated by the harness in f64 from TLC's exact arguments, tolerance rel 1e-4 / abs 1e-5",
